@@ -1,28 +1,36 @@
 /-
-  C08, part E: what the checker REJECTS on the current sources, and two-secret witnesses.
+  C08, part E: what the checker still REJECTS, with two-secret witnesses.
 
-  * `(*SM2ScalarElement).SetBytes` (sm2/internal/fiat/sm2_scalar_element.go:95) compares its input with
-    n-1 by an early-exit loop: the number of iterations depends on the (secret) value.
-  * `(*SM2Point).GetAffineX_Unsafe` (sm2/internal/sm2_point.go:226) and `(*SM2Point).bytes(out, false)`
-    behind `Bytes_Unsafe` (sm2_point.go:141) invert the secret-dependent projective Z with
-    `big.Int.ModInverse` (a leaking external call).
-  * `SignHashed`, `GenerateKey`, `DerivePublic` (sm2/sm2.go) are rejected exactly because they call
-    those (`failing_*`: every other function they reach passes).
-  Each witness runs the concrete interpreter on two secrets of the same shape with the same
-  declassified verdicts and finds two different leakage traces.
+  * `(*SM2Point).GetAffineX_Unsafe` (sm2/internal/sm2_point.go:230) and `(*SM2Point).bytes(out, false)`
+    behind `Bytes_Unsafe` (sm2_point.go:174) invert the projective Z with `big.Int.ModInverse`
+    (a leaking external call).  They are NOT constant time and must not see secret-dependent points.
+    After the repairs they are called only by `VerifyHashed` (sm2/sm2.go:355, 359) on [s]G + [t]P, which
+    is computed from the signature and the public key: public data, outside the scope of C08.
+    No function reachable from SignHashed, GenerateKey or DerivePublic calls them any more
+    (`ct_SignHashed`, `ct_GenerateKey`, `ct_DerivePublic` in part D).
+
+  Documentation of the former violations (found by this check on the tree before the repairs; the
+  theorems `reject_SetBytes_n`, `reject_SignHashed`, `reject_GenerateKey`, `reject_DerivePublic`,
+  `witness_SetBytes_n` were proved against that tree and are superseded by the positive theorems):
+    1. `(*SM2ScalarElement).SetBytes` compared its input with n-1 by an early-exit loop (the number of
+       iterations depended on the secret 1+d); witness: 1 against FFFFFFFEFFFFFFFFFFFFFFFFFFFFFFFF00…00,
+       traces of 99 and 211 events.  Repaired by 9cead3d (utils.ConstantTimeCmp).
+    2. `SignHashed` took x([k]G) with `GetAffineX_Unsafe`, `GenerateKey` / `DerivePublic` converted [d]G
+       with `Bytes_Unsafe`: `big.Int.ModInverse` of the secret-dependent Z.  Repaired by 233fd1f
+       (GetAffineX / Bytes: inversion by the addition chain).
+    3. `utils.ConstantTimeCmp` computed its -1/0/1 result by branching on borrow and diff, so the control
+       flow revealed the three-way result where callers need a two-way verdict (in SignHashed's test
+       r + k = n: whether k < n - r).  Repaired by 9a85a34 (branch-free result); the verdict sites are now
+       the callers' tests only.
 -/
 import SMGo.Gen.CTIRProg
 open SMGo.Model.CTIR SMGo.Gen.CTIRProg
 set_option maxRecDepth 1000000
 namespace SMGo.Proofs.CTIRCheck
 
-theorem reject_SetBytes_n : check (slice prog f_fiat_SM2ScalarElement_SetBytes) sigs f_fiat_SM2ScalarElement_SetBytes = false := by decide +kernel
 theorem reject_GetAffineX_Unsafe : check (slice prog f_internal_SM2Point_GetAffineX_Unsafe) sigs f_internal_SM2Point_GetAffineX_Unsafe = false := by decide +kernel
 theorem reject_Bytes_Unsafe : check (slice prog f_internal_SM2Point_Bytes_Unsafe) sigs f_internal_SM2Point_Bytes_Unsafe = false := by decide +kernel
-theorem reject_bytes_unsafe : check (slice prog f_internal_SM2Point_bytes_safe_false) sigs f_internal_SM2Point_bytes_safe_false = false := by decide +kernel
-theorem reject_DerivePublic : check (slice prog f_sm2_DerivePublic) sigs f_sm2_DerivePublic = false := by decide +kernel
-theorem reject_GenerateKey : check (slice prog f_sm2_GenerateKey) sigs f_sm2_GenerateKey = false := by decide +kernel
-theorem reject_SignHashed : check (slice prog f_sm2_SignHashed) sigs f_sm2_SignHashed = false := by decide +kernel
+theorem reject_bytes_safe_false : check (slice prog f_internal_SM2Point_bytes_safe_false) sigs f_internal_SM2Point_bytes_safe_false = false := by decide +kernel
 
 /-- the functions of a program that do not respect their signature -/
 def failing (P : Prog) (S : Sigs) : List Nat :=
@@ -30,14 +38,19 @@ def failing (P : Prog) (S : Sigs) : List Nat :=
     | some fn => !checkFn P S g fn
     | none => false)
 
-/-- the entry points fail only through the three rejected callees -/
-theorem failing_SignHashed : failing (slice prog f_sm2_SignHashed) sigs =
-    [f_fiat_SM2ScalarElement_SetBytes, f_internal_SM2Point_GetAffineX_Unsafe] := by decide +kernel
-theorem failing_GenerateKey : failing (slice prog f_sm2_GenerateKey) sigs = [f_internal_SM2Point_bytes_safe_false] := by decide +kernel
-theorem failing_DerivePublic : failing (slice prog f_sm2_DerivePublic) sigs = [f_internal_SM2Point_bytes_safe_false] := by decide +kernel
-theorem failing_SetBytes_n : failing (slice prog f_fiat_SM2ScalarElement_SetBytes) sigs = [f_fiat_SM2ScalarElement_SetBytes] := by decide +kernel
 theorem failing_GetAffineX_Unsafe : failing (slice prog f_internal_SM2Point_GetAffineX_Unsafe) sigs = [f_internal_SM2Point_GetAffineX_Unsafe] := by decide +kernel
 theorem failing_Bytes_Unsafe : failing (slice prog f_internal_SM2Point_Bytes_Unsafe) sigs = [f_internal_SM2Point_bytes_safe_false] := by decide +kernel
+
+/-- in the whole generated program (every function of the C08 scope and everything the entry points
+    reach) exactly the `_Unsafe` conversions fail — `bytes` is the unspecialised body containing both
+    variants — and nothing that passes calls them -/
+theorem failing_prog : failing prog sigs =
+    [f_internal_SM2Point_GetAffineX_Unsafe, f_internal_SM2Point_bytes, f_internal_SM2Point_bytes_safe_false] := by decide +kernel
+theorem callers_of_unsafe :
+    (List.range prog.length).filter (fun g => match prog[g]? with
+      | some fn => (calleesS fn.body).any (fun c => c == f_internal_SM2Point_GetAffineX_Unsafe ||
+          c == f_internal_SM2Point_Bytes_Unsafe || c == f_internal_SM2Point_bytes_safe_false || c == f_internal_SM2Point_bytes)
+      | none => false) = [f_internal_SM2Point_Bytes_Unsafe] := by decide +kernel
 
 /-! ## two-secret witnesses -/
 
@@ -70,17 +83,6 @@ def bigX : Oracle := fun name args =>
     | _ => [.int 0]
   else if name = x_big_Int_Bytes then [.arr []]
   else (sigs.ext.getD name []).map (fun _ => .int 0)
-
-def scalarZero : Val := .arr [.arr [.int 0, .int 0, .int 0, .int 0]]
-
-/-- 1 (the loop of SetBytes leaves at its first byte) -/
-def secretA : Val := natBytes 32 1
-/-- 0xFFFFFFFEFFFFFFFFFFFFFFFFFFFFFFFF00…00 (agrees with n-1 on 16 bytes: 17 iterations) -/
-def secretB : Val := natBytes 32 0xFFFFFFFEFFFFFFFFFFFFFFFFFFFFFFFF00000000000000000000000000000000
-
-theorem witness_SetBytes_n :
-    tracesDiffer (slice prog f_fiat_SM2ScalarElement_SetBytes) globals bigX 100000
-      f_fiat_SM2ScalarElement_SetBytes [scalarZero, secretA] [scalarZero, secretB] = true := by decide +kernel
 
 def el (a : Nat) : Val := .arr [.arr [.int (Int.ofNat a), .int 0, .int 0, .int 0]]
 /-- two projective points that differ only in Z (raw Montgomery limbs) -/
